@@ -19,7 +19,7 @@ var c09BadCutoffs = []float64{0.49, 0.25, 0, -1, 1.01, 2, math.NaN()}
 func init() {
 	Register(&Engine{
 		Name: "c09", Prop: "C09",
-		Rule: "case = (1..16 trees on the same 4..10 taxa built from one or two base trees by SPR moves, contractions, re-rooting, rotation and rooting on a " +
+		Rule: "case = (1..16 trees on the same 4..10 (sometimes 60..130, incl. 63/64/65/127/128/129) taxa, named by one of several schemes, built from one or two base trees by SPR moves, contractions, re-rooting, rotation and rooting on a " +
 			"branch, so that many split frequencies are k/n exactly; threshold from {0.5, 0.5625, 0.625, 0.75, 0.875, 1} (dyadic: threshold·n is exact) or an " +
 			"out-of-range one; optional faulty record (foreign / missing / extra taxon, duplicate tip, malformed text, error record) at a drawn position; " +
 			"feed = real reader goroutine over a chunked stream or a producer; producer/consumer schedule; a second copy of the collection in another order " +
